@@ -540,10 +540,28 @@ def cached_tlc(ctx, name, label, consts, producer):
 
 # ------------------------------------------------------------------------------------------------
 def load_histories(path):
+    """histories of TLC's dump; the steps that carry a huge value get the code (bit string) and the value (limbs) of
+    their class from the table TLC computed once (variable tab of the initial state)"""
     out = []
+    tab = {}
     for st in tlaval.iter_dump(path):
         if st["hist"]:
             out.append(tlaval.to_jsonable(st["hist"]))
+        elif st["tab"]:
+            for row in tlaval.to_jsonable(st["tab"]):
+                for e in row:
+                    tab[(e["k"], e["pat"])] = e
+    if not tab:
+        raise RuntimeError("the dump holds no table of huge-value codes")
+    import json
+
+    out.sort(key=lambda h: json.dumps(h, sort_keys=True))  # the order of a 16-worker dump varies from run to run
+    for h in out:
+        for s in h:
+            b = s["u"].get("big") if isinstance(s["u"], dict) else None
+            if b:
+                s["code"] = list(tab[(b["k"], b["pat"])]["code"])
+                s["val"] = list(tab[(b["k"], b["pat"])]["val"])
     return out
 
 
